@@ -240,7 +240,12 @@ func c05Oracle(r *core.Result, fr *faultRun, f faultSpec) {
 	}
 	r.Count("faults_applied", 1)
 	// parameter sizes and duplicates are validated by plain comparisons, not by a commitment, share check or proof
-	covered := !uncoveredFields[s.Proto+"/"+f.Type+"."+f.Field] && f.How != "wrong-secret" && f.How != "weak-params"
+	covered := !uncoveredFields[s.Proto+"/"+f.Type+"."+f.Field] && f.How != "weak-params"
+	if f.How == "wrong-secret" {
+		// a signer's share is tied to its public share by Bob's proof "with check" in ECDSA signing; EdDSA signing and
+		// the re-sharing dealers have no per-party proof of the share (the failure shows in the final check only)
+		covered = s.Proto == "ecdsa-signing"
+	}
 	if f.How == "mirror" {
 		// a mirrored message is covered if the type has at least one covered field
 		covered = false
